@@ -498,11 +498,17 @@ def serp_history(rng):
     extra = rng.randrange(0, 3)
     for _ in range(extra):
         do("get 0")
-    do("%s 0 %d" % (rng.choice(["setserp", "setserp", "setser", "setud"]), rng.randrange(1, 9)))
+    how = rng.choice(["setserp", "setserd", "setserd", "setser", "setud"])
+    do("%s 0 %d" % (how, rng.randrange(1, 9)))
     for _ in range(rng.randrange(1, 4)):
         do("setd 0")
         if rng.chance(0.3):
             do("get 0"); do("put 0")
+        if how != "setserp" and rng.chance(0.4):
+            # (json_object_userdata_to_json_string is the one serializer whose userdata the library does copy - as a string)
+            # the default shallow copy refuses a node with user data it does not know, silently (round-8 seeds C05-14 / C09-13:
+            # a format string owned by the node must not end up owned by two nodes)
+            do("copyd 0")
     if rng.chance(0.5):
         do("newa"); do("aadd 1 0")
         do("setd 0")
